@@ -33,28 +33,32 @@ Body(s) ==
 TypeOf(v) == CASE v.t = "DClientHello" -> 1 [] v.t = "HelloVerifyRequest" -> 3 [] v.t = "ServerHello" -> 2 [] v.t = "ServerDone" -> 14
                [] v.t = "ClientKeyExchange" -> 16 [] OTHER -> 11
 (* one message: [bytes, want] *)
-Msg(s) ==
+MsgQ(s, q) ==
+  LET ms == IF q >= 0 THEN q ELSE W16(s, 41) IN
   IF H(s, 40) % 5 < 3
   THEN LET v == Body(s)  b == EncDtlsBody(v) IN      \* unfragmented
-       [bytes |-> EncDtlsHs(TypeOf(v), Len(b), W16(s, 41), 0, Len(b), b),
-        want |-> [t |-> "hs", mt |-> TypeOf(v), len |-> Len(b), mseq |-> W16(s, 41), off |-> 0, flen |-> Len(b), body |-> v, frag |-> FALSE]]
+       [bytes |-> EncDtlsHs(TypeOf(v), Len(b), ms, 0, Len(b), b),
+        want |-> [t |-> "hs", mt |-> TypeOf(v), len |-> Len(b), mseq |-> ms, off |-> 0, flen |-> Len(b), body |-> v, frag |-> FALSE]]
   ELSE LET mt == IF H(s, 42) % 2 = 0 THEN <<1, 2, 3, 11, 14, 16>>[(H(s, 43) % 6) + 1] ELSE H(s, 43) % 256     \* a fragment of a message of any type
            L == 1 + Size(s, 44) + (IF H(s, 45) % 7 = 0 THEN 65536 * (H(s, 46) % 200) ELSE 0)
            off == IF H(s, 47) % 3 = 0 THEN 0 ELSE H(s, 48) % L
            room == L - off
            fl == IF off = 0 THEN (H(s, 49) % Min2(room, 3000)) ELSE (H(s, 49) % (Min2(room, 3000) + 1))      \* off = 0: strictly less than the length
            d == Bs(s, 50, fl) IN
-       [bytes |-> EncDtlsHs(mt, L, W16(s, 41), off, fl, d),
-        want |-> [t |-> "hs", mt |-> mt, len |-> L, mseq |-> W16(s, 41), off |-> off, flen |-> fl, body |-> [t |-> "Fragment", data |-> d], frag |-> TRUE]]
+       [bytes |-> EncDtlsHs(mt, L, ms, off, fl, d),
+        want |-> [t |-> "hs", mt |-> mt, len |-> L, mseq |-> ms, off |-> off, flen |-> fl, body |-> [t |-> "Fragment", data |-> d], frag |-> TRUE]]
+Msg(s) == MsgQ(s, -1)
+(* in every other record all messages carry the SAME message_seq (fragments of different types and lengths side by side: each is returned as it is) *)
+Shared(s) == IF H(s, 77) % 2 = 0 THEN W16(s, 78) ELSE -1
 Base(c) == (Seed % 1000) * 100003 + c
 Level(c) == c % 3           \* 0: message, 1: one record, 2: datagram of 1..3 records
-MsgsOf(c) == [j \in 1..(IF Level(c) = 0 THEN 1 ELSE 1 + (H(Base(c), 60) % 3)) |-> Msg(Base(c) + 11 * j)]
+MsgsOf(c) == [j \in 1..(IF Level(c) = 0 THEN 1 ELSE 1 + (H(Base(c), 60) % 3)) |-> MsgQ(Base(c) + 11 * j, IF Level(c) = 0 THEN -1 ELSE Shared(Base(c)))]
 Payload(ms) == FoldLeft(LAMBDA acc, m : acc \o m.bytes, <<>>, ms)
 Hdr(s, n) == [ct |-> 22, ver |-> IF H(s, 61) % 4 = 0 THEN W16(s, 62) ELSE <<65279, 65277>>[(H(s, 62) % 2) + 1], epoch |-> W16(s, 63), seq |-> <<W16(s, 64), W16(s, 66), W16(s, 68)>>, len |-> n]
 RecOf(s, ms) == [hdr |-> Hdr(s, Len(Payload(ms))), msgs |-> [j \in 1..Len(ms) |-> ms[j].want]]
 Small(ms) == Len(Payload(ms)) <= 16384
 NRec(c) == IF Level(c) = 2 THEN 1 + (H(Base(c), 70) % 3) ELSE 1
-RecMsgs(c, r) == [j \in 1..(1 + (H(Base(c) + 97 * r, 60) % 2)) |-> Msg(Base(c) + 97 * r + 11 * j)]
+RecMsgs(c, r) == [j \in 1..(1 + (H(Base(c) + 97 * r, 60) % 2)) |-> MsgQ(Base(c) + 97 * r + 11 * j, Shared(Base(c) + 97 * r))]
 Sfx(c) == <<<<>>, <<0>>, <<22, 254, 253>>, <<1, 0, 0, 0, 0, 0, 0, 0, 0, 0, 0, 0>>>>[(H(c, 5) % 4) + 1]
 Usable(c) == IF Level(c) = 1 THEN Small(MsgsOf(c)) ELSE IF Level(c) = 2 THEN \A r \in 1..NRec(c) : Small(RecMsgs(c, r)) ELSE TRUE
 Lvl(c) == IF Usable(c) THEN Level(c) ELSE 0
